@@ -140,16 +140,30 @@ Theorem C10_wrap64_meaning : forall z : Z,
   wraps_to z (wrap64 z) /\ forall r, wraps_to z r -> r = wrap64 z.
 Proof. exact p_wrap64. Qed.
 
-(* typeof, if, len, str::from, case mapping (the oracle's to_lowercase / to_uppercase) *)
-Theorem C10_typeof_if_len_str : forall (O : std_oracle) (v : value),
+Theorem C10_typeof : forall (O : std_oracle) (v : value),
+  option_map (fun f => bclass (f v)) (builtin_function O (s2l "typeof")) = Some (spec_typeof v).
+Proof. exact p_typeof. Qed.
+
+Theorem C10_if : forall (O : std_oracle) (v : value),
+  option_map (fun f => bclass (f v)) (builtin_function O (s2l "if")) = Some (spec_if v).
+Proof. exact p_if. Qed.
+
+(* bytes for a string, elements for a tuple *)
+Theorem C10_len : forall (O : std_oracle) (v : value),
+  option_map (fun f => bclass (f v)) (builtin_function O (s2l "len")) = Some (spec_len v).
+Proof. exact p_len. Qed.
+
+(* Display of the value, a top-level string unquoted *)
+Theorem C10_str_from : forall (O : std_oracle) (v : value),
+  option_map (fun f => bclass (f v)) (builtin_function O (s2l "str::from")) = Some (spec_str_from O v).
+Proof. exact p_str_from. Qed.
+
+(* case mapping is the oracle's (Rust std) to_lowercase / to_uppercase on strings, a type error otherwise *)
+Theorem C10_str_case : forall (O : std_oracle) (v : value),
   let call (name : string) := option_map (fun f => bclass (f v)) (builtin_function O (s2l name)) in
-  call "typeof" = Some (spec_typeof v) /\
-  call "if" = Some (spec_if v) /\
-  call "len" = Some (spec_len v) /\
-  call "str::from" = Some (spec_str_from O v) /\
   call "str::to_lowercase" = Some (on_str (o_to_lowercase O) v) /\
   call "str::to_uppercase" = Some (on_str (o_to_uppercase O) v).
-Proof. exact p_simple. Qed.
+Proof. exact p_str_case. Qed.
 
 Theorem C10_contains : forall (O : std_oracle) (v : value) (f : value -> outcome value),
   builtin_function O (s2l "contains") = Some f -> spec_contains v (bclass (f v)).
@@ -163,6 +177,10 @@ Proof. exact p_contains_any. Qed.
 Theorem C10_trim : forall (O : std_oracle) (v : value) (f : value -> outcome value),
   builtin_function O (s2l "str::trim") = Some f -> spec_trim v (bclass (f v)).
 Proof. exact p_trim. Qed.
+
+(* the relation determines the result: it is the model's (and the lexer's White_Space table's) trim *)
+Theorem C10_trim_unique : forall s r : str, trimmed s r <-> r = trim s.
+Proof. exact p_trim_unique. Qed.
 
 (* str::substring: the bytes [start, end) when that is a range between character boundaries,
    OutOfBoundsAccess otherwise -- never a made-up value *)
